@@ -269,15 +269,89 @@ def _thread_returns(cf, off, boff, n, dest, target, adts):
         return
     blocks = cf["blocks"]
     T = blocks[target]
-    if T["term"]["k"] != "switch" or any(s["k"] == "assign" and s["r"]["k"] not in ("use", "unop", "discr", "ref") for s in T["stmts"]):
+    if any(s["k"] == "assign" and s["r"]["k"] not in ("use", "unop", "discr", "ref") for s in T["stmts"]):
+        return
+    via_try = None
+    if T["term"]["k"] == "call" and (T["term"].get("callee") or "").endswith("Try::branch") and T["term"].get("target") is not None:
+        # `helper(..)?`: the value goes through Try::branch first; Ok/Some continue, Err/None break
+        a0 = (T["term"].get("args") or [None])[0]
+        d2 = T["term"].get("dest")
+        if a0 and a0.get("k") in ("move", "copy") and _same_place(a0["p"], dest) and d2 and not d2.get("proj"):
+            T2 = blocks[T["term"]["target"]]
+            if T2["term"]["k"] == "switch" and not any(s["k"] == "assign" and s["r"]["k"] not in ("use", "unop", "discr", "ref") for s in T2["stmts"]):
+                via_try = (d2["l"], T2)
+    if T["term"]["k"] != "switch" and via_try is None:
         return
     rets = [i for i in range(boff, boff + n) if any(s.get("inl_ret") for s in blocks[i]["stmts"]) and blocks[i]["term"].get("target") == target]
+
+    def assigns_ret(i):
+        return any(s["k"] == "assign" and s["p"]["l"] == off for s in blocks[i]["stmts"] if not s.get("inl_ret")) or \
+            (blocks[i]["term"]["k"] == "call" and (blocks[i]["term"].get("dest") or {}).get("l") == off)
+
+    def chain_to(i, R):
+        """blocks between i (exclusive) and R (exclusive) when i reaches R through gotos / drops only, without writing the return place"""
+        out = []
+        cur = blocks[i]["term"].get("target") if blocks[i]["term"]["k"] in ("goto", "drop") else None
+        while cur is not None and cur != R and len(out) < 12:
+            if not (boff <= cur < boff + n) or assigns_ret(cur) or blocks[cur]["term"]["k"] not in ("goto", "drop"):
+                return None
+            out.append(cur)
+            cur = blocks[cur]["term"].get("target")
+        return out if cur == R else None
+
     for R in rets:
-        preds = [i for i in range(boff, boff + n) if blocks[i]["term"]["k"] == "goto" and blocks[i]["term"]["target"] == R and i != R]
-        cands = [(R, blocks[R]["stmts"][:-1])] if _known_value(blocks[R]["stmts"][:-1], off) else [(pb, blocks[pb]["stmts"]) for pb in preds]
-        for (pb, stmts) in cands:
+        cands = []
+        if _known_value(blocks[R]["stmts"][:-1], off):
+            cands.append((R, blocks[R]["stmts"][:-1], []))
+        else:
+            for i in range(boff, boff + n):
+                if i == R or not _known_value(blocks[i]["stmts"], off):
+                    continue
+                ch = chain_to(i, R)
+                if ch is not None:
+                    cands.append((i, blocks[i]["stmts"], ch))
+        for (pb, stmts, chain) in cands:
             v = _known_value(stmts, off)
             if v is None:
+                continue
+            if chain:
+                # private copies of the blocks between the assignment and the return block
+                first = None
+                prev = None
+                for c in chain:
+                    nbk = copy.deepcopy(blocks[c])
+                    blocks.append(nbk)
+                    idx = len(blocks) - 1
+                    if first is None:
+                        first = idx
+                    if prev is not None:
+                        blocks[prev]["term"]["target"] = idx
+                    prev = idx
+                blocks[pb]["term"] = dict(blocks[pb]["term"])
+                blocks[pb]["term"]["target"] = first
+                pb = prev          # its terminator still points at R: retargeted below
+            if via_try is not None:
+                if v[0] != "variant" or not v[1]:
+                    continue
+                if v[1].endswith("result::Result"):
+                    cidx = v[2]
+                elif v[1].endswith("option::Option"):
+                    cidx = 0 if v[2] == 1 else 1
+                else:
+                    continue
+                dl, T2 = via_try
+                nxt = _eval_switch(T2["stmts"], T2["term"], {dl: ("variant", "std::ops::ControlFlow", cidx)}, adts)
+                if nxt is None:
+                    continue
+                nb2 = {"stmts": copy.deepcopy(T2["stmts"]), "term": {"k": "goto", "target": nxt, "sp": T2["term"].get("sp", {}), "threaded": True},
+                       "file": blocks[R].get("file")}
+                blocks.append(nb2)
+                call = copy.deepcopy(T["term"])
+                call["target"] = len(blocks) - 1
+                nb = {"stmts": ([] if pb == R else copy.deepcopy(blocks[R]["stmts"])) + copy.deepcopy(T["stmts"]), "term": call, "file": blocks[R].get("file")}
+                blocks.append(nb)
+                blocks[pb]["term"] = dict(blocks[pb]["term"])
+                blocks[pb]["term"]["target"] = len(blocks) - 1
                 continue
             nxt = _eval_switch(T["stmts"], T["term"], {dest["l"]: v}, adts)
             if nxt is None:
